@@ -168,41 +168,29 @@ def run(ctx):
         ctx.ob("R03.2", "total_read-is-fresh@%s" % tag, bool(lens) and not stale, ri.loc(bb),
                "the byte count handed to do_read must be taken after every append of the same iteration; here the lengths are read at bb%s but another read "
                "(bb%s) appends in between, so this read is clipped against a stale count and one call can return up to twice the limit" % (lens, [o for _, o in stale]))
-    top = bool_edges(ri, T, lambda c: c[0] == "bin" and c[1] == "Ge" and E.len_sum(M.noref(c[2])) and M.noref(c[3]) == ("field", ("downcast", ("param", E.params["size_limit"], "size_limit"), "Some"), "0"), True)
-    ok = len(top) == 1 and top[0][0] in E.loop and top[0][1] not in E.loop
-    if not top:
-        # the same test written as size_limit.is_some_and(|limit| outvec.len() + errvec.len() >= limit), its result (possibly kept in a
-        # named bool) deciding the exit
-        lim_p = ("param", E.params["size_limit"], "size_limit")
-        for bb_, t_ in ri.calls(E.loop):
-            if M.callee_str(t_["f"]) != "std::option::Option::<T>::is_some_and":
-                continue
-            a_ = [T.operand(x) for x in t_["args"]]
-            if M.noref(a_[0]) != lim_p or not (a_[1][0] == "agg" and a_[1][1][0] == "closure" and a_[1][1][1] in prog.fns):
-                continue
-            cf = prog.fns[a_[1][1][1]]
-            Tc_ = M.Terms(cf)
-            r_ = Tc_.local(0)
-            ups = {u["name"] for u in cf.body.get("upvars", [])}
-            def lens_of_captures(x):
-                x = x[1] if x[0] == "field" and x[2] == "0" else x
-                if not (x[0] == "bin" and x[1] in ("Add", "AddWithOverflow")):
-                    return False
-                got = set()
-                upl = cf.body.get("upvars", [])
-                for y in (x[2], x[3]):
-                    if y[0] == "call" and y[1] == "std::vec::Vec::<T, A>::len":
-                        z = M.peel(y[2][0])
-                        if z[0] == "field" and z[1][0] == "param" and z[1][1] == 1 and z[2].isdigit() and int(z[2]) < len(upl):
-                            got.add(upl[int(z[2])]["name"])
-                return got == {"outvec", "errvec"}
-            cmp_ok = r_[0] == "bin" and r_[1] == "Ge" and lens_of_captures(M.noref(r_[2])) and M.noref(r_[3]) == ("param", 2, cf.local_name(2)) and {"outvec", "errvec"} <= ups
-            # true result -> the loop is left: explore with the call's result assumed true
-            ct = ("call", M.callee_str(t_["f"]), tuple(a_), bb_)
-            ex_t = M.Explore(ri, start=bb_, assume={ct: 1}, tries="ok")
-            stays = [b2 for b2 in ex_t.blocks if b2 in E.loop and E.mp_call and b2 == E.mp_call[0]]
-            ok = cmp_ok and not stays
-            top = [(bb_, None)]
+    # the limit test `outvec.len() + errvec.len() >= limit` (limit = the payload of size_limit), wherever its result travels before it is
+    # acted upon (tested at once, kept in a named bool, the answer of an is_some_and closure): with the test answering true and a limit
+    # configured, the iteration must leave the loop without reaching the poll
+    lim_p = ("param", E.params["size_limit"], "size_limit") if "size_limit" in E.params else None
+    lim_pay = ("field", ("downcast", lim_p, "Some"), "0")
+    def is_lim_test(c):
+        c = M.noref(c)
+        if c[0] != "bin":
+            return False
+        if c[1] == "Ge":
+            return E.len_sum(M.noref(c[2])) and M.noref(c[3]) == lim_pay
+        if c[1] == "Le":
+            return E.len_sum(M.noref(c[3])) and M.noref(c[2]) == lim_pay
+        return False
+    top = []
+    for bb_ in sorted(E.loop):
+        for s_ in ri.blocks[bb_]["stmts"]:
+            if s_["k"] == "assign" and s_["r"]["k"] == "bin" and is_lim_test(T.rvalue(s_["r"])):
+                top.append((bb_, None))
+    ok = len(top) == 1 and lim_p is not None
+    if ok:
+        ex_t = M.Explore(ri, start=min(E.loop), assume_fn=lambda t_: 1 if (t_ and (is_lim_test(t_) or M.noref(t_) == lim_p)) else None, tries="ok")
+        ok = bool(E.mp_call) and E.mp_call[0] not in ex_t.blocks and top[0][0] in ex_t.blocks
     ctx.ob("R03.2", "loop-top-test", ok, ri.loc(top[0][0] if top else 0), "the loop is left when outvec.len() + errvec.len() >= limit (both vectors, >=)")
     if ok and E.mp_call:
         # the test precedes the poll of the same iteration: the poll is unreachable from the loop head once the test block is removed
